@@ -2,6 +2,7 @@ from driver import Unit
 
 FL = {"quick": ["asan-cc"], "thorough": ["asan-cc", "asan-nocc"]}
 FL1 = {"quick": ["asan-cc"], "thorough": ["asan-cc"]}
+FLO0 = {"quick": ["asanO0-cc"], "thorough": ["asanO0-cc"]}  # template-heavy, tiny run: same sanitizers at -O0 compile 3x faster
 
 
 def u(name, src, cfg=None, shards=(6, 16), fl=FL, probe=None):
@@ -34,6 +35,9 @@ units = [
     u("C07_unordered", "harness/C07_unordered.cpp", shards=(1, 1), fl=FL1),
     u("C07_members", "harness/C07_members.cpp", shards=(1, 1), fl=FL),
     u("C07_valueor", "harness/C07_valueor.cpp", shards=(1, 1), fl=FL1),
+    u("C07_sources", "harness/C07_sources.cpp", shards=(1, 1), fl=FL1),
+    u("C07_visitmix", "harness/C07_visitmix.cpp", shards=(1, 1), fl=FLO0),
+    u("C07_variant_1", "harness/C07_variant.cpp", 7, shards=(3, 8), fl=FL1),
     u("C07_probe_nullopt_rel", "harness/C07_probe.cpp", probe=1, shards=(1, 1), fl=FL1),
     u("C07_probe_optref_conv", "harness/C07_probe.cpp", probe=2, shards=(1, 1), fl=FL),
     u("C07_probe_visit_ref", "harness/C07_probe.cpp", probe=3, shards=(1, 1), fl=FL1),
@@ -56,6 +60,9 @@ P = dict(
                 "the alternative selected by converting construction/assignment for 416 (variant, argument type) cells and 83 optional<T>/optional<U> conversion cells; "
                 "every relation with the SAME object on both sides / an optional against its own contained object for non-reflexive and inconsistent payload comparisons; "
                 "value_or with fallbacks of other arithmetic / class types at the precision boundaries (value and declared return type) and the declared result types of and_then / or_else; "
+                "relations between optionals of different payload types (signed/unsigned, integer/floating, char/int at the conversion boundaries); every copy-style operation "
+                "from a non-const lvalue leaves its source unchanged (payloads whose rvalue overloads damage the argument); visit over variants with 1, 2 and 3 alternatives in "
+                "every position and index combination; "
                 "all six relations over unordered payloads (NaN, a partially ordered instrumented type whose own <,<=,>,>= calls are counted) for optional, optional<T&> and variant; "
                 "952 cells over payload types whose copy/move constructor, copy/move assignment and destructor are independently trivial or user-provided, comparing the "
                 "special-member call ledger of copy/move assignment, construction, emplace, reset and swap with the std owner of the same payload type. "
